@@ -5,6 +5,7 @@ import (
 
 	errorsmod "cosmossdk.io/errors"
 	sdk "github.com/cosmos/cosmos-sdk/types"
+	sdkerrors "github.com/cosmos/cosmos-sdk/types/errors"
 
 	"github.com/sunriselayer/sunrise/x/shareclass/types"
 
@@ -19,6 +20,15 @@ func (k msgServer) CreateValidator(ctx context.Context, msg *types.MsgCreateVali
 	}
 
 	// Validate amount
+	if err := msg.Amount.Validate(); err != nil {
+		return nil, errorsmod.Wrap(types.ErrInvalidCreateValidatorAmount, err.Error())
+	}
+	if err := msg.Fee.Validate(); err != nil {
+		return nil, errorsmod.Wrap(types.ErrInvalidCreateValidatorFee, err.Error())
+	}
+	if msg.MinSelfDelegation.IsNil() || msg.Commission.Rate.IsNil() || msg.Commission.MaxRate.IsNil() || msg.Commission.MaxChangeRate.IsNil() {
+		return nil, errorsmod.Wrap(sdkerrors.ErrInvalidRequest, "min self delegation and commission rates must be set")
+	}
 	powerReduction := k.stakingKeeper.PowerReduction(ctx)
 
 	if !msg.Amount.Amount.Equal(powerReduction) {
